@@ -1,4 +1,5 @@
 import GqlVerif.Props.C02
+import GqlVerif.Proofs.C02Response
 open GqlVerif
 #print axioms C02.wellScoped_iff
 #print axioms C02.selected_types_used
@@ -17,3 +18,19 @@ open GqlVerif
 #print axioms C02.responseItems_fuel_sufficient
 #print axioms C02.fragmentItems_fuel_sufficient
 #print axioms C02.responseForQuery_fuel
+-- the response items and the whole module (Proofs/C02Response.lean)
+#print axioms C02.response_mentions_resolved
+#print axioms C02.response_mentions_resolved_mapped
+#print axioms C02.module_well_scoped_partial
+#print axioms C02.module_no_undefined_mentions
+#print axioms C02.module_defines_eq
+#print axioms C02.defines_nodup_iff
+#print axioms C02.defines_nodup
+#print axioms C02.module_serde_crate
+#print axioms C02.module_well_scoped_iff
+#print axioms C02.normalization_needed
+#print axioms C02.nameMap_needed
+#print axioms C02.defines_dup_witness
+#print axioms C02.member_dup_witness
+#print axioms C02.keyword_enum_variable_mismatch
+#print axioms C02.object_variable_unresolved
